@@ -682,6 +682,14 @@ func Generate(rng *rand.Rand, g GenOpts) *Input {
 	childEdit := func(c *childState) {
 		ts, com := stamp()
 		v := Hver{Timestamp: ts, Committed: com, Lat: float64(rng.Intn(180) - 90), Lon: float64(rng.Intn(360) - 180), Visible: true}
+		// coordinates exactly on the equator / the prime meridian / at (0,0) are ordinary values
+		// (derived from the drawn values: the random stream is the same as before)
+		if int(v.Lat)%5 == 0 {
+			v.Lat = 0
+		}
+		if int(v.Lon)%5 == 0 {
+			v.Lon = 0
+		}
 		if len(c.vers) == 0 {
 			v.Version = 1 + rng.Intn(2)
 			if bigVersions {
